@@ -26,6 +26,8 @@ def _ast_to_dict(doc):
             return [convert_value(item) for item in value.items]
         elif isinstance(value, InlineMap):
             return {k: convert_value(v) for k, v in value.pairs.items()}
+        elif isinstance(value, dict):  # nested block inside META (plain dict)
+            return {k: convert_value(v) for k, v in value.items()}
         return value
 
     def convert_block(block):
